@@ -1,12 +1,13 @@
 import Driver.C01
 import Driver.Expr
 import Driver.C03
+import Driver.C06
 
 open Drv
 
 def step (line : String) : String :=
   let toks := (line.trimAscii.toString.splitOn " ").filter (· ≠ "")
-  match (stepC01 toks <|> stepExpr toks <|> stepC03 toks) with
+  match (stepC01 toks <|> stepExpr toks <|> stepC03 toks <|> stepC06 toks) with
   | some out => out
   | none => "bad-op"
 
